@@ -228,19 +228,56 @@ class ModelDB:
 
 
 class Cursor:
-    def __init__(self, rows, rowcount=-1):
+    """result of one statement.  A SELECT cursor that is not yet exhausted keeps its statement -- and with it the
+    connection's WAL read snapshot -- open (sqlite3 resets a statement when its rows are exhausted, on fetchall(),
+    or when the cursor is dropped): until then the connection reads the pinned snapshot and cannot upgrade to a
+    write transaction if another connection has committed meanwhile (SQLITE_BUSY_SNAPSHOT)."""
+
+    def __init__(self, rows, rowcount=-1, con=None, pin=None):
         self._rows = rows
         self.rowcount = rowcount
+        self._con = con
+        if con is not None and pin is not None and rows:
+            con.open_cursors.append(self)
+            if con.pinned is None:
+                con.pinned = pin
+
+    def _release(self):
+        con = self._con
+        if con is not None and self in con.open_cursors:
+            con.open_cursors.remove(self)
+            if not con.open_cursors:
+                con.pinned = None
 
     def fetchall(self):
         r, self._rows = self._rows, []
+        self._release()
         return r
 
     def fetchone(self):
-        return self._rows.pop(0) if self._rows else None
+        if self._rows:
+            r = self._rows.pop(0)
+            if not self._rows:
+                self._release()
+            return r
+        self._release()
+        return None
 
     def __iter__(self):
-        return iter(self.fetchall())
+        # CPython fetches a row and immediately steps to the next one: the statement is reset as soon as the
+        # last row has been handed out
+        while self._rows:
+            r = self._rows.pop(0)
+            if not self._rows:
+                self._release()
+            yield r
+        self._release()
+
+    def __del__(self):
+        try:
+            self._release()
+        except Exception:
+            pass
 
 
 class SymStr:
@@ -298,6 +335,8 @@ class Connection:
         self.timeout = timeout
         self.closed = False
         self.in_txn = False
+        self.open_cursors = []
+        self.pinned = None  # committed state pinned by an unexhausted SELECT cursor of this connection
 
     # -- python <-> cell
     def bind(self, v):
@@ -709,6 +748,9 @@ class Connection:
                 if db.world is not None:
                     db.world.spin()
                 raise OperationalError('database is locked')
+            if self.pinned is not None and self.pinned is not db.committed:
+                # read snapshot is stale: the read transaction cannot be upgraded (SQLITE_BUSY_SNAPSHOT)
+                raise OperationalError('database is locked')
             db.lock_holder = self
             db.txn_state = db.committed.copy()
             self.in_txn = True
@@ -739,11 +781,18 @@ class Connection:
         cells = [self.bind(p) for p in params]
         if kind == 'select':
             state = db.state_for(self)
-            return self.do_select(st, cells, state)
+            if self.pinned is not None and db.lock_holder is not self:
+                state = self.pinned
+            cur = self.do_select(st, cells, state)
+            if db.lock_holder is not self:
+                return Cursor(cur._rows, con=self, pin=state)
+            return cur
         # writes
         auto = not self.in_txn
         if auto:
             if db.lock_holder is not None or (db.busy_hook is not None and db.busy_hook(self)):
+                raise OperationalError('database is locked')
+            if self.pinned is not None and self.pinned is not db.committed:
                 raise OperationalError('database is locked')
             state = db.committed.copy()
         else:
